@@ -103,7 +103,7 @@ StartBuild ==
        LET e1 == [ev |-> "build", name |-> "B", vers |-> vm, bad |-> FALSE, disk |-> EntriesOf(s.disk),
                   cser |-> CSer(s.disk)]
            s1 == Apply(s, e1)
-           e2 == [ev |-> "root_begin"]
+           e2 == [ev |-> "root_begin", sent |-> "", recv |-> ""]
        IN /\ s' = Apply(s1, e2)
           /\ bad' = Note(IF Check(s, e1) # "" THEN Check(s, e1) ELSE Check(s1, e2))
           /\ hist' = Append(hist, [h |-> "build", vers |-> vm])
